@@ -21,6 +21,7 @@ import (
 type snapshot struct {
 	total, accounts, pools, stakes *big.Int
 	poolByID                       map[uint64]uint64
+	stakeByAddr                    map[string]uint64
 	supply                         *fsm.Supply
 }
 
@@ -34,14 +35,16 @@ func snap(st lib.RStoreI) (*snapshot, error) {
 		return nil, err
 	}
 	stakes := new(big.Int)
+	byAddr := map[string]uint64{}
 	for _, v := range vals {
 		stakes.Add(stakes, new(big.Int).SetUint64(v.StakedAmount))
+		byAddr[string(v.Address)] = v.StakedAmount
 	}
 	sup, err := refs.RawSupply(st)
 	if err != nil {
 		return nil, err
 	}
-	s := &snapshot{total: new(big.Int).SetUint64(sup.Total), accounts: acc, pools: pools, stakes: stakes, supply: sup, poolByID: map[uint64]uint64{}}
+	s := &snapshot{total: new(big.Int).SetUint64(sup.Total), accounts: acc, pools: pools, stakes: stakes, supply: sup, poolByID: map[uint64]uint64{}, stakeByAddr: byAddr}
 	it, e := st.Iterator(lib.JoinLenPrefix([]byte{2}))
 	if e != nil {
 		return nil, e
@@ -214,9 +217,16 @@ func runCase(t *testing.T, run *core.Run, name string, idx int, rng *rand.Rand) 
 				}
 			}
 		}
-		limit := new(big.Int).Add(new(big.Int).SetUint64(slashed), maxRemainder)
+		// slashes show as stake that disappeared (not every slash path emits an event): bound them by the total stake decrease
+		stakeDrop := new(big.Int)
+		for a, before := range prev.stakeByAddr {
+			if after := cur.stakeByAddr[a]; after < before {
+				stakeDrop.Add(stakeDrop, new(big.Int).SetUint64(before-after))
+			}
+		}
+		limit := new(big.Int).Add(stakeDrop, maxRemainder)
 		if burned.Cmp(limit) > 0 {
-			run.Violation("supply-destroyed-beyond-burns", "^"+name+"$", map[string]any{"case": name, "height": h, "burned": burned.String(), "slash_events": slashed, "max_reward_remainder": maxRemainder.String(), "history_tail": tail(history, 40)})
+			run.Violation("supply-destroyed-beyond-burns", "^"+name+"$", map[string]any{"case": name, "height": h, "burned": burned.String(), "slash_events": slashed, "stake_decrease": stakeDrop.String(), "max_reward_remainder": maxRemainder.String(), "history_tail": tail(history, 40)})
 			return
 		}
 		if burned.Sign() > 0 {
@@ -251,7 +261,7 @@ func TestCheck(t *testing.T) {
 	run := core.Start(t, "C04", "exploration",
 		"seeded single-node chains (45/150 blocks): sends at 0/1/exact balance/over balance/near 2^64, stake/edit/unstake with tiny and large stakes, subsidies, approved DAO transfers "+
 			"with and without mint, parameter changes, non-sign slashes up to 100%, halvening every 7/20 blocks, mint of 3 units per block (truncation); after every block: "+
-			"recorded total == raw sum of accounts+pools+stakes (big.Int), and delta(total) within [created - slashes - reward pools, created]; distinct_nontrivial = distinct completed chains")
+			"recorded total == raw sum of accounts+pools+stakes (big.Int), and delta(total) within [created - stake decreases - reward pools, created]; distinct_nontrivial = distinct completed chains")
 	defer run.Finish()
 	run.MinDistinct = 3
 	run.Assume("burn of the undistributed reward remainder is bounded by the reward pools rather than recomputed exactly; plugin-written balances and the faucet are not configured; DEX/escrow flows belong to C20")
